@@ -221,15 +221,32 @@ class Chooser:
         return [c for _, c in self.points]
 
 
+DEADLINE = [None]        # absolute time after which explore() starts no further execution (the run reports the cap)
+CAPPED = [0]             # explorations cut short by the deadline since the counter was last read
+HEARTBEAT = [None]       # path of a file touched after every execution (lets a watchdog tell slow from stuck)
+
+
+def _beat():
+    if HEARTBEAT[0]:
+        try:
+            with open(HEARTBEAT[0], "w") as f:
+                f.write("x")
+        except OSError:
+            pass
+
+
 def explore(run_once, bound, shard=None, on_execution=None, max_executions=None):
     """run_once(chooser) executes the harness once under the chooser and returns an observation
     (anything comparable).  Returns stats dict.  shard=(i, n): this worker only explores the
     first-level alternatives whose ordinal % n == i (the default schedule is run by every worker)."""
     stats = {"executions": 0, "points_default": 0, "max_points": 0, "capped": False}
+    import time
     ch = Chooser([])
     obs0 = run_once(ch)
+    _beat()
     ch2 = Chooser([])
     obs0b = run_once(ch2)
+    _beat()
     if ch.choices() != ch2.choices() or obs0 != obs0b:
         raise core.HarnessError("default schedule is not reproducible (observations or choice points differ between two runs)")
     stats["executions"] += 1
@@ -248,12 +265,13 @@ def explore(run_once, bound, shard=None, on_execution=None, max_executions=None)
                     ordinal[0] += 1
                     if ordinal[0] % shard[1] != shard[0]:
                         continue
-                if max_executions and stats["executions"] >= max_executions:
+                if (max_executions and stats["executions"] >= max_executions) or (DEADLINE[0] and time.time() > DEADLINE[0]):
                     stats["capped"] = True
                     return
                 newp = [c for _, c in points[:i]] + [alt]
                 c = Chooser(newp)
                 obs = run_once(c)
+                _beat()
                 stats["executions"] += 1
                 stats["max_points"] = max(stats["max_points"], len(c.points))
                 if c.choices()[:len(newp)] != newp:
@@ -261,8 +279,12 @@ def explore(run_once, bound, shard=None, on_execution=None, max_executions=None)
                 if on_execution:
                     on_execution(newp, obs, c.points)
                 rec(newp, c.points, ndev + 1, False)
+                if stats["capped"]:
+                    return
 
     rec([], ch.points, 0, True)
+    if stats["capped"]:
+        CAPPED[0] += 1
     return stats
 
 
